@@ -89,4 +89,12 @@ CLAIMS.update({
          "method names as computed by the model (a naming difference is a compile error), should-be-absent methods probed through a fallback trait.",
          "DESIGN.md §6 C13", "ASCII identifiers only. Observed quirk mirrored by the model: `Foo_1` becomes `is_foo__1`."),
 })
+CLAIMS.update({
+ 'C20': ("Lean 4 proof: each rejection rule x applicable derive => reject, never panic, domain => accept, over a raw-attribute model of every derive's checks; mode-A class correspondence + mode-B rustc diagnostics",
+         "lean/StrumProofs/C20.lean: validate_reject_iff, never_panics, accepts_domain, rejects_non_enum (R1), rejects_data_variant_array/_table (R2), rejects_lifetime (R3), rejects_enum_attr / rejects_variant_attr / rejects_field_default_with (R4, R8), "
+         "rejects_defaults (R5, R6), rejects_transparent_shape / rejects_default_shape_display (R6), rejects_unit_placeholder (R7), rejects_half_parse_err (R9), rejects_prop_literal (R10); F6/F7 witnesses on the pinned behaviour. "
+         "Correspondence: ~1600 items (every rule x every derive x positions x within/across attributes, plus in-domain controls): mode A runs the macro's *_inner functions in-process (ok / err / panic vs validate); "
+         "mode B compiles rejected and accepted items in two crates with the real derives (incl. FromRepr) and reads rustc's JSON diagnostics per item file.",
+         "DESIGN.md §6 C20", "Partial: 'reported at the offending item' is checked as 'an error whose span lies in the item's file' on the sampled items; the model distinguishes accept / reject / panic only, not message wording. syn's parsing of attribute syntax is exercised, not modelled."),
+})
 NOT_CLAIMED = {}
